@@ -327,6 +327,17 @@ Theorem C06_reject_2997 : forall w pph mode cont ast snr st now ases,
 Proof. exact reject_2997. Qed.
 Print Assumptions C06_reject_2997.
 
+(** Segments of 1.92 s: exactly the values whose whole-second period 3600/n (integer division) is
+    a multiple of 48 s are accepted; periods_125 gives 28 s and is rejected although 28.8 s, the
+    exact 125th of an hour, would be 15 segments - Period@start and the period bounds handed to
+    reduceS are whole seconds, so a period is a whole number of seconds.  (The harness sweeps
+    every value 1..3600 on generated assets with 1.92 s / 2.56 s / 3.84 s segments.) *)
+Theorem C06_reject_1920 : forall w pph mode cont ast snr st now ases,
+  1 <= pph <= 3600 ->
+  ((periodDurOf pph) mod 48 <> 0 <-> exists e, splitPeriod false w pph 1920 mode cont ast snr st now ases = Err e).
+Proof. exact reject_1920. Qed.
+Print Assumptions C06_reject_1920.
+
 (** Continuity is signalled in every AdaptationSet of every period iff requested. *)
 Theorem C06_continuity : forall mode cont snr k P a o,
   splitAS false mode cont snr k P a = Ok o -> o_pto o = u64 (k * P * tsOf a) /\ o_cont o = cont.
